@@ -7,6 +7,7 @@ import (
 	"fmt"
 	"math/rand"
 	"os"
+	"path/filepath"
 	"sync"
 
 	"verifharness/pkg/emit"
@@ -28,6 +29,40 @@ type c06Result struct {
 	hist  []string
 	notes []string
 	skip  string
+	ops   []int // Storage calls made by each step
+}
+
+func c06CountOps(o c06Obs) int {
+	n := 0
+	for _, ev := range o.logEnc {
+		if ev[0] == 0 {
+			n++
+		}
+	}
+	return n
+}
+
+// c06SweepBases: histories whose marked step is run once per Storage-call index with that call
+// failing (obtain, forced renewal, renewal of a due certificate by manage; one and two issuers; fresh
+// and reused key), followed by a fault-free manage. The property's first clause binds under storage
+// errors too: a reported success must have left a complete, matching, reloadable bundle.
+func c06SweepBases() (bases []c06In, target []int) {
+	dns := c06Subjects[0]
+	m := func(o ...c06Outcome) c06Hop { return c06Hop{Op: "manage", Orc: c06Orc(o...)} }
+	for _, reuse := range []bool{false, true} {
+		c1 := c06Cfg{N: 1, Reuse: reuse, KeyType: "p256"}
+		c2 := c06Cfg{N: 2, Reuse: reuse, KeyType: "p256"}
+		add := func(c c06Cfg, t int, steps ...c06Hop) {
+			bases = append(bases, c06In{Cfg: c, Subj: dns, Steps: steps})
+			target = append(target, t)
+		}
+		add(c1, 0, c06Hop{Op: "obtain", Orc: c06Orc(c06Up(10, 0))}, m(c06Up(20, 0)))
+		add(c1, 1, m(c06Up(10, 0)), c06Hop{Op: "renew", Force: true, Orc: c06Orc(c06Up(20, 0))}, m(c06Up(30, 0)))
+		add(c1, 1, m(c06Up(10, 1)), m(c06Up(20, 0)), m(c06Up(30, 0)))
+		add(c2, 0, m(c06Down, c06Up(10, 0)), m(c06Up(20, 0), c06Up(20, 0)))
+		add(c2, 1, m(c06Down, c06Up(10, 1)), m(c06Up(20, 0), c06Up(20, 0)), m(c06Up(30, 0), c06Up(30, 0)))
+	}
+	return bases, target
 }
 
 func c06RunCase(w *emit.Writer, in c06In, origin string) { c06Emit(w, c06Exec(in, origin)) }
@@ -88,6 +123,7 @@ func c06Exec(in c06In, origin string) (res c06Result) {
 	issuances := 0
 	opsSeen := map[string]bool{}
 	symptom := "none"
+	faultedSteps, faultsHit := 0, 0
 	fwd, fwdSteps := true, 0
 	var prevSt []c06Entry
 	for si := range in.Steps {
@@ -111,17 +147,36 @@ func c06Exec(in c06In, origin string) (res c06Result) {
 			}
 		}
 		var o c06Obs
-		if fw != nil {
-			o, _ = fw.runLocal(*h, true)
-		} else {
-			o = bw.runHop(*h, nil, true)
+		var plan *c06Plan
+		if len(h.Fails) > 0 {
+			plan = &c06Plan{Fails: h.Fails, From: -1, Crash: -1}
+			faultedSteps++
 		}
+		if fw != nil {
+			o, _ = fw.runLocalPlan(*h, plan, true)
+			if plan != nil { // a failed Unlock leaves the lock file behind: the staleness rule, at once
+				os.RemoveAll(filepath.Join(fw.dir, "locks"))
+			}
+		} else {
+			o = bw.runHop(*h, plan, true)
+			if plan != nil {
+				bw.breakLocks()
+				if plan.Fails[0] < bw.cnt {
+					faultsHit++
+				}
+			}
+		}
+		res.ops = append(res.ops, c06CountOps(o))
 		prevSt = o.stEnc
 		if in.Cfg.Rnd {
 			h.Orc.Perm = c06CompletePerm(in.Cfg.N, o)
 		}
 		c06EncHop(e, *h)
 		c06EncOracle(e, h.Orc)
+		e.Len(len(h.Fails))
+		for _, f := range h.Fails {
+			e.Int(f)
+		}
 		c06EncObs(e, o)
 		obsAll = append(obsAll, o)
 		for _, ev := range o.logEnc {
@@ -150,6 +205,8 @@ func c06Exec(in c06In, origin string) (res c06Result) {
 	hist(fmt.Sprintf("issuances=%d", min(issuances, 6)))
 	hist("class=" + class)
 	hist("symptom=" + symptom)
+	hist(fmt.Sprintf("faulted_steps=%d", min(faultedSteps, 3)))
+	hist(fmt.Sprintf("faults_inside_the_operation=%d", min(faultsHit, 3)))
 	if in.Backend == "" {
 		hist("backend=memory")
 	} else {
@@ -162,7 +219,8 @@ func c06Exec(in c06In, origin string) (res c06Result) {
 	res.c = emit.Case{
 		Desc: map[string]any{"class": class, "subject_kind": in.Subj.Kind, "issuers": in.Cfg.N, "reuse": in.Cfg.Reuse,
 			"policy_random": in.Cfg.Rnd, "keytype": in.Cfg.KeyType, "origin": origin, "steps": len(in.Steps),
-			"spelling_dirs_differ": bw.sLoad != bw.sSave, "symptom": symptom, "backend": in.Backend},
+			"spelling_dirs_differ": bw.sLoad != bw.sSave, "symptom": symptom, "backend": in.Backend,
+			"faulted_steps": faultedSteps},
 		In: in, Obs: obsAll, Wire: e.String(),
 		Nontrivial: issuances >= 1 && len(in.Steps) >= 2, Key: string(key)}
 	return res
@@ -377,6 +435,20 @@ func c06Run(tier string, seed int64, outdir string, replay string) error {
 		in.Backend = "filestorage"
 		ins, origins = append(ins, in), append(origins, "corpus-fs")
 	}
+	// storage-error sweep: learn the number of Storage calls of the marked step, then fail each in turn
+	bases, target := c06SweepBases()
+	for bi, b := range bases {
+		L := 0
+		if r0 := c06Exec(b, "sweep-base"); len(r0.ops) > target[bi] {
+			L = r0.ops[target[bi]]
+		}
+		for k := 0; k < L; k++ {
+			in := b
+			in.Steps = append([]c06Hop(nil), b.Steps...)
+			in.Steps[target[bi]].Fails = []int{k}
+			ins, origins = append(ins, in), append(origins, "error-sweep")
+		}
+	}
 	n := 700
 	if tier == "thorough" {
 		n = 12000
@@ -386,6 +458,19 @@ func c06Run(tier string, seed int64, outdir string, replay string) error {
 		in := c06Random(r, true, tier == "thorough")
 		if i%8 == 7 {
 			in.Backend = "filestorage"
+		} else if i%4 == 1 {
+			// storage errors in random histories: one failing call in some of the operations
+			// (not once a revocation is pending: forceRenew goes through the retrying entry points, where an
+			// error is retried with minutes of back-off - not modelled, see notes/C07.md)
+			for si := range in.Steps {
+				op := in.Steps[si].Op
+				if op == "revenv" {
+					break
+				}
+				if (op == "manage" || op == "obtain" || op == "renew") && r.Intn(3) == 0 {
+					in.Steps[si].Fails = []int{r.Intn(26)}
+				}
+			}
 		}
 		ins, origins = append(ins, in), append(origins, "random")
 	}
